@@ -52,6 +52,7 @@ type funcInfo struct {
 	acquires     map[string][2]int // lock -> number of Lock() / RLock() call sites in the function body
 	chanAccesses []access          // accesses to channel-typed fields (not part of the race table)
 	shadows      []string          // locals declared at the top of the body that a nested `:=` declares again
+	returnLocks  [][]lockHeld      // per return statement: the locks held there
 }
 
 // struct type of well-known receiver / variable names per package directory
@@ -573,6 +574,7 @@ func (w *walker) stmt(s ast.Stmt, locks []lockHeld) []lockHeld {
 		return locks
 	case *ast.ReturnStmt:
 		w.fi.returns++
+		w.fi.returnLocks = append(w.fi.returnLocks, append([]lockHeld(nil), locks...))
 		for _, r := range x.Results {
 			locks = w.expr(r, locks)
 		}
